@@ -13,7 +13,7 @@ func init() {
 		Run: runC10,
 		Decided: "nil-safe access to every protobuf reply/record pointer (whole program); the mis-keyed-record check dominates the record return of ProtocolMessenger.GetValue; " +
 			"reply peers are exposed only through the bounding converter PBPeersToPeerInfos, which bounds each record before converting and skips undecodable addresses; " +
-			"the closer-peer list of one response is cut to at most 2*bucketSize before it is iterated; both reply readers are size-bounded and select on a context and a timer/deadline with a buffered reply channel; an aborted value search processes no further response (its stop channel is closed once). Added after the seeded rounds: a slice made with len(L) is filled by position only in a loop over L (R7); the per-peer sender retries at most once, flag set first (R8, shared C11.R2).",
+			"the closer-peer list of one response is cut to at most 2*bucketSize before it is iterated; both reply readers are size-bounded and select on a context and a timer/deadline with a buffered reply channel; an aborted value search processes no further response (its stop channel is closed once). Added after the seeded rounds: a slice made with len(L) is filled by position only in a loop over L (R7); the per-peer sender retries at most once, flag set first (R8, shared C11.R2). Round 4: every admission slot taken for a lookup check is given back on every path of the check goroutine (R9).",
 		NotDecided: "behaviour of protobuf-go unmarshalling on arbitrary bytes; transport behaviour.",
 	})
 }
